@@ -161,6 +161,22 @@ pub fn variants(ag: &AG, full: bool) -> Vec<(String, Geometry<f64>)> {
                     };
                     out.push(("Polygon/holes-rev-rot".into(), Geometry::Polygon(poly(&q))));
                 }
+                // every ring written from its lexicographically least vertex with the closing coordinate repeated (.., p0, p0), in both directions:
+                // repeated coordinates do not change the point set
+                {
+                    let dup = |r: &[IP]| -> LineString<f64> {
+                        let k = (0..r.len()).min_by_key(|&i| r[i]).unwrap();
+                        let mut v = close(&rotate_ring(r, k));
+                        let first = v[0];
+                        v.push(first);
+                        ls(&v)
+                    };
+                    out.push(("Polygon/least-start-dup-close".into(), Geometry::Polygon(Polygon::new(dup(&p.shell), p.holes.iter().map(|h| dup(h)).collect()))));
+                    out.push((
+                        "Polygon/rev-least-start-dup-close".into(),
+                        Geometry::Polygon(Polygon::new(dup(&reverse_ring(&p.shell)), p.holes.iter().map(|h| dup(&reverse_ring(h))).collect())),
+                    ));
+                }
                 if p.holes.is_empty() {
                     if let Some((lo, hi)) = is_axis_rect(&p.shell) {
                         out.push(("Rect".into(), Geometry::Rect(Rect::new(c(lo), c(hi)))));
